@@ -75,7 +75,18 @@ func (vv *VarVal) Hierarchy() []Symbol {
 
 // Eval the object.
 func (vv *VarVal) Eval(s *Scope, depth int) Object {
-	return vv.Value()
+	val := vv.Value()
+	if val == Unbound {
+		UnboundVariablePanic(s, depth, Symbol(vv.name), "Variable %s is unbound.", vv.name)
+	}
+	return val
+}
+
+// inherit makes the variable, an unbound placeholder for a reference compiled
+// before the variable was visible, read the inherited variable from now on.
+func (vv *VarVal) inherit(from *VarVal) {
+	vv.Val = nil
+	vv.Get = from.Value
 }
 
 func newUnboundVar(name string) *VarVal {
